@@ -13,12 +13,15 @@ Organisation
 -/
 import WallGoVerif.Model.EOM
 import WallGoVerif.Lemmas.Hydro
+import WallGoVerif.Gen.R.Grid
 import Mathlib.Tactic
 import Mathlib.Analysis.SpecialFunctions.Trigonometric.DerivHyp
 import Mathlib.Analysis.SpecialFunctions.Sqrt
 import Mathlib.MeasureTheory.Integral.IntegralEqImproper
 import Mathlib.MeasureTheory.Function.JacobianOneDim
 import Mathlib.LinearAlgebra.Matrix.Notation
+import Mathlib.MeasureTheory.Measure.Haar.NormedSpace
+import Mathlib.Analysis.Calculus.FDeriv.Basic
 
 namespace Lemmas.EOM
 
@@ -399,5 +402,457 @@ theorem foldl_profileStep_success (pts : List (ℝ × ℝ)) (acc : List (ℝ × 
     rw [List.foldl_cons, ih _ (fun x hx => h x (List.mem_cons_of_mem _ hx))]
     have hr := h r List.mem_cons_self
     simp [profileStep, hr]
+
+/-! ## `tanh` calculus (not in Mathlib) -/
+
+section Analysis
+open Filter Topology MeasureTheory Set
+
+theorem hasDerivAt_tanh (x : ℝ) : HasDerivAt Real.tanh (1 / (Real.cosh x * Real.cosh x)) x := by
+  have hc : Real.cosh x ≠ 0 := (Real.cosh_pos x).ne'
+  have h := (Real.hasDerivAt_sinh x).div (Real.hasDerivAt_cosh x) hc
+  have hfun : Real.tanh = fun y => Real.sinh y / Real.cosh y := funext Real.tanh_eq_sinh_div_cosh
+  rw [hfun]
+  refine HasDerivAt.congr_deriv (f' := (Real.cosh x * Real.cosh x - Real.sinh x * Real.sinh x)
+    / Real.cosh x ^ 2) h ?_
+  rw [div_eq_div_iff (by positivity) (by positivity)]
+  linear_combination (Real.cosh x * Real.cosh x) * Real.cosh_sq x
+
+theorem one_sub_tanh (x : ℝ) : 1 - Real.tanh x = 2 / (Real.exp (2 * x) + 1) := by
+  rw [Real.tanh_eq, two_mul, Real.exp_add, Real.exp_neg]
+  have := Real.exp_pos x
+  field_simp
+  ring
+
+theorem tendsto_tanh_atTop : Tendsto Real.tanh atTop (𝓝 1) := by
+  have h1 : Tendsto (fun x : ℝ => Real.exp (2 * x) + 1) atTop atTop :=
+    tendsto_atTop_add_const_right _ _
+      (Real.tendsto_exp_atTop.comp (tendsto_id.const_mul_atTop two_pos))
+  have h2 := h1.const_div_atTop 2
+  have h3 : Tendsto (fun x : ℝ => 1 - 2 / (Real.exp (2 * x) + 1)) atTop (𝓝 (1 - 0)) :=
+    tendsto_const_nhds.sub h2
+  rw [sub_zero] at h3
+  refine h3.congr (fun x => ?_)
+  rw [← one_sub_tanh]; ring
+
+theorem tendsto_tanh_atBot : Tendsto Real.tanh atBot (𝓝 (-1)) := by
+  have h := (tendsto_tanh_atTop.comp tendsto_neg_atBot_atTop).neg
+  refine h.congr (fun x => ?_)
+  simp [Real.tanh_neg]
+
+theorem continuous_sech_sq : Continuous (fun x : ℝ => 1 / (Real.cosh x * Real.cosh x)) :=
+  continuous_const.div (Real.continuous_cosh.mul Real.continuous_cosh)
+    (fun x => (mul_pos (Real.cosh_pos x) (Real.cosh_pos x)).ne')
+
+theorem sech_sq_nonneg (x : ℝ) : 0 ≤ 1 / (Real.cosh x * Real.cosh x) := by
+  have := Real.cosh_pos x; positivity
+
+/-- `1/cosh²` is integrable on the real line (its integral over `[-i,i]` is `2 tanh i ≤ 2`). -/
+theorem integrable_sech_sq : Integrable (fun x : ℝ => 1 / (Real.cosh x * Real.cosh x)) := by
+  refine integrable_of_intervalIntegral_norm_bounded (l := atTop) (a := fun i : ℝ => -i)
+    (b := fun i : ℝ => i) 2 (fun i => continuous_sech_sq.integrableOn_Ioc)
+    tendsto_neg_atTop_atBot tendsto_id (Eventually.of_forall fun i => ?_)
+  have h : ∀ x : ℝ, ‖1 / (Real.cosh x * Real.cosh x)‖ = 1 / (Real.cosh x * Real.cosh x) :=
+    fun x => Real.norm_of_nonneg (sech_sq_nonneg x)
+  simp only [h]
+  rw [intervalIntegral.integral_eq_sub_of_hasDerivAt (fun x _ => hasDerivAt_tanh x)
+    (continuous_sech_sq.intervalIntegrable _ _)]
+  have := Real.tanh_lt_one i
+  have := Real.neg_one_lt_tanh (-i)
+  linarith
+
+/-! ## `fieldProfile`: derivative, limits, integrability of the gradient -/
+
+/-- `fieldGradient` is the exact `z`-derivative of `fieldProfile` (for every `L`, including the
+degenerate `L = 0` where both the profile is constant and the model's division gives `0`). -/
+theorem hasDerivAt_fieldProfile (lo hi L δ z : ℝ) :
+    HasDerivAt (fun z => fieldProfile Real.tanh (1 / 2) 1 z lo hi L δ)
+      (fieldGradient Real.cosh (1 / 2) z lo hi L δ) z := by
+  have h1 : HasDerivAt (fun z : ℝ => z / L + δ) (1 / L) z :=
+    ((hasDerivAt_id z).div_const L).add_const δ
+  have h2 := (hasDerivAt_tanh (z / L + δ)).comp z h1
+  have h3 := ((h2.const_add 1).const_mul (1 / 2 * (hi - lo))).const_add lo
+  unfold fieldProfile fieldGradient
+  refine HasDerivAt.congr_deriv h3 ?_
+  by_cases hL : L = 0
+  · subst hL; simp
+  · have := Real.cosh_pos (z / L + δ)
+    field_simp
+
+theorem tendsto_arg_atTop {L : ℝ} (hL : 0 < L) (δ : ℝ) :
+    Tendsto (fun z : ℝ => z / L + δ) atTop atTop :=
+  tendsto_atTop_add_const_right _ _ (tendsto_id.atTop_div_const hL)
+
+theorem tendsto_arg_atBot {L : ℝ} (hL : 0 < L) (δ : ℝ) :
+    Tendsto (fun z : ℝ => z / L + δ) atBot atBot :=
+  tendsto_atBot_add_const_right _ _ (tendsto_id.atBot_div_const hL)
+
+theorem tendsto_fieldProfile_atTop (lo hi δ : ℝ) {L : ℝ} (hL : 0 < L) :
+    Tendsto (fun z => fieldProfile Real.tanh (1 / 2) 1 z lo hi L δ) atTop (𝓝 hi) := by
+  have h := ((tendsto_tanh_atTop.comp (tendsto_arg_atTop hL δ)).const_add 1).const_mul
+    (1 / 2 * (hi - lo)) |>.const_add lo
+  have e : lo + 1 / 2 * (hi - lo) * (1 + 1) = hi := by ring
+  rw [e] at h
+  exact h
+
+theorem tendsto_fieldProfile_atBot (lo hi δ : ℝ) {L : ℝ} (hL : 0 < L) :
+    Tendsto (fun z => fieldProfile Real.tanh (1 / 2) 1 z lo hi L δ) atBot (𝓝 lo) := by
+  have h := ((tendsto_tanh_atBot.comp (tendsto_arg_atBot hL δ)).const_add 1).const_mul
+    (1 / 2 * (hi - lo)) |>.const_add lo
+  have e : lo + 1 / 2 * (hi - lo) * (1 + -1) = lo := by ring
+  rw [e] at h
+  exact h
+
+/-- the profile stays between the two vacua -/
+theorem fieldProfile_mem_uIcc (lo hi L δ z : ℝ) :
+    fieldProfile Real.tanh (1 / 2) 1 z lo hi L δ ∈ uIcc lo hi := by
+  unfold fieldProfile
+  have h1 := Real.tanh_lt_one (z / L + δ)
+  have h2 := Real.neg_one_lt_tanh (z / L + δ)
+  set t := 1 / 2 * (1 + Real.tanh (z / L + δ)) with ht
+  have ht0 : 0 ≤ t := by rw [ht]; linarith
+  have ht1 : t ≤ 1 := by rw [ht]; linarith
+  have e : lo + 1 / 2 * (hi - lo) * (1 + Real.tanh (z / L + δ)) = lo + t * (hi - lo) := by
+    rw [ht]; ring
+  rw [e, mem_uIcc]
+  rcases le_total lo hi with h | h
+  · left; constructor <;> nlinarith
+  · right; constructor <;> nlinarith
+
+theorem continuous_fieldGradient (lo hi L δ : ℝ) :
+    Continuous (fun z => fieldGradient Real.cosh (1 / 2) z lo hi L δ) := by
+  unfold fieldGradient
+  by_cases hL : L = 0
+  · subst hL; simp [continuous_const]
+  · refine continuous_const.div ?_ (fun z => ?_)
+    · have hc : Continuous (fun z : ℝ => Real.cosh (z / L + δ)) :=
+        Real.continuous_cosh.comp ((continuous_id.div_const L).add continuous_const)
+      exact continuous_const.mul (hc.mul hc)
+    · have := Real.cosh_pos (z / L + δ); positivity
+
+theorem integrable_fieldGradient (lo hi L δ : ℝ) :
+    Integrable (fun z => fieldGradient Real.cosh (1 / 2) z lo hi L δ) := by
+  by_cases hL : L = 0
+  · subst hL; simp [fieldGradient]
+  · have h := ((integrable_sech_sq.comp_add_right δ).comp_div hL).const_mul (1 / 2 * (hi - lo) / L)
+    refine h.congr (Eventually.of_forall fun z => ?_)
+    have := Real.cosh_pos (z / L + δ)
+    simp only [fieldGradient]
+    field_simp
+
+/-- **Pressure identity, one field.**  For a potential `V` with continuous derivative `V'`, the
+integral over the whole wall of `−V'(φ(z)) φ'(z)` for the tanh profile is `V(φ_low) − V(φ_high)`,
+whatever the width `L > 0` and offset `δ`. -/
+theorem pressure_identity_single (V V' : ℝ → ℝ) (hV : ∀ x, HasDerivAt V (V' x) x)
+    (hV' : Continuous V') (lo hi δ : ℝ) {L : ℝ} (hL : 0 < L) :
+    Integrable (fun z => V' (fieldProfile Real.tanh (1 / 2) 1 z lo hi L δ)
+        * fieldGradient Real.cosh (1 / 2) z lo hi L δ) ∧
+    ∫ z, -(V' (fieldProfile Real.tanh (1 / 2) 1 z lo hi L δ)
+        * fieldGradient Real.cosh (1 / 2) z lo hi L δ) = V lo - V hi := by
+  set Φ := fun z => fieldProfile Real.tanh (1 / 2) 1 z lo hi L δ with hΦ
+  set Φ' := fun z => fieldGradient Real.cosh (1 / 2) z lo hi L δ with hΦ'
+  have hΦd : ∀ z, HasDerivAt Φ (Φ' z) z := fun z => hasDerivAt_fieldProfile lo hi L δ z
+  have hΦc : Continuous Φ := continuous_iff_continuousAt.mpr fun z => (hΦd z).continuousAt
+  have hVc : Continuous V := continuous_iff_continuousAt.mpr fun x => (hV x).continuousAt
+  obtain ⟨C, hC⟩ := isCompact_uIcc.exists_bound_of_continuousOn (hV'.continuousOn (s := uIcc lo hi))
+  have hint : Integrable (fun z => V' (Φ z) * Φ' z) :=
+    (integrable_fieldGradient lo hi L δ).bdd_mul (c := C)
+      (hV'.comp hΦc).aestronglyMeasurable
+      (Eventually.of_forall fun z => hC _ (fieldProfile_mem_uIcc lo hi L δ z))
+  refine ⟨hint, ?_⟩
+  have hderiv : ∀ z, HasDerivAt (fun z => -V (Φ z)) (-(V' (Φ z) * Φ' z)) z := fun z =>
+    ((hV (Φ z)).comp z (hΦd z)).neg
+  have hbot : Tendsto (fun z => -V (Φ z)) atBot (𝓝 (-V lo)) :=
+    ((hVc.tendsto lo).comp (tendsto_fieldProfile_atBot lo hi δ hL)).neg
+  have htop : Tendsto (fun z => -V (Φ z)) atTop (𝓝 (-V hi)) :=
+    ((hVc.tendsto hi).comp (tendsto_fieldProfile_atTop lo hi δ hL)).neg
+  rw [integral_of_hasDerivAt_of_tendsto hderiv hint.neg hbot htop]
+  ring
+
+/-- **Change of variables `z = z(χ)`** (improper version): for a map `z : (-1,1) → ℝ` that is
+monotone with derivative `J`, tends to `-∞` at `-1⁺` and to `+∞` at `1⁻`, one has
+`∫_ℝ g = ∫_{(-1,1)} g(z(χ)) J(χ) dχ` for every `g` (both sides are Bochner integrals; if one
+side is not integrable neither is the other and both are `0`). -/
+theorem integral_comp_gridmap (z J : ℝ → ℝ) (g : ℝ → ℝ)
+    (hderiv : ∀ χ ∈ Ioo (-1 : ℝ) 1, HasDerivAt z (J χ) χ)
+    (hmono : StrictMonoOn z (Ioo (-1 : ℝ) 1))
+    (hbot : Tendsto z (𝓝[>] (-1 : ℝ)) atBot) (htop : Tendsto z (𝓝[<] (1 : ℝ)) atTop) :
+    ∫ x, g x = ∫ χ in Ioo (-1 : ℝ) 1, g (z χ) * J χ := by
+  have himg : z '' Ioo (-1 : ℝ) 1 = univ := by
+    refine eq_univ_of_forall fun y => ?_
+    obtain ⟨a, ha1, ha2⟩ := ((hbot.eventually (eventually_lt_atBot y)).and
+      (Ioo_mem_nhdsGT (by norm_num : (-1 : ℝ) < 1))).exists
+    obtain ⟨b, hb1, hb2⟩ := ((htop.eventually (eventually_gt_atTop y)).and
+      (Ioo_mem_nhdsLT (by norm_num : (-1 : ℝ) < 1))).exists
+    have hab : a < b := by
+      by_contra hba
+      have := hmono.monotoneOn hb2 ha2 (not_lt.mp hba)
+      linarith
+    have hsub : Icc a b ⊆ Ioo (-1 : ℝ) 1 := fun x hx => ⟨lt_of_lt_of_le ha2.1 hx.1,
+      lt_of_le_of_lt hx.2 hb2.2⟩
+    have hcont : ContinuousOn z (Icc a b) := fun x hx =>
+      (hderiv x (hsub hx)).continuousAt.continuousWithinAt
+    obtain ⟨c, hc, hzc⟩ := intermediate_value_Icc hab.le hcont ⟨ha1.le, hb1.le⟩
+    exact ⟨c, hsub hc, hzc⟩
+  have h := integral_image_eq_integral_deriv_smul_of_monotoneOn measurableSet_Ioo
+    (fun χ hχ => (hderiv χ hχ).hasDerivWithinAt) hmono.monotoneOn g
+  rw [himg, setIntegral_univ] at h
+  rw [h]
+  refine setIntegral_congr_fun measurableSet_Ioo (fun χ _ => ?_)
+  simp [mul_comm]
+
+/-- a continuous linear functional on `ℝⁿ` is the sum of its partial derivatives times components -/
+theorem clm_apply_eq_sum {n : ℕ} (f : (Fin n → ℝ) →L[ℝ] ℝ) (v : Fin n → ℝ) :
+    f v = ∑ i, f (Pi.single i 1) * v i := by
+  conv_lhs => rw [← Finset.univ_sum_single v]
+  rw [map_sum]
+  refine Finset.sum_congr rfl fun i _ => ?_
+  have : (Pi.single i (v i) : Fin n → ℝ) = v i • Pi.single i 1 := by
+    rw [← Pi.single_smul]; simp
+  rw [this, map_smul, smul_eq_mul, mul_comm]
+
+/-- **Pressure identity, `n` fields.**  `V` is differentiable with continuous derivative `V'`;
+`∂_i V(x) = V'(x)(e_i)`.  The integral over the wall of `−Σ_i ∂_iV(φ(z)) φ_i'(z)` for the
+`n`-component tanh profile equals `V(φ_low) − V(φ_high)` for all widths `L_i > 0` and offsets. -/
+theorem pressure_identity_multi {n : ℕ} (V : (Fin n → ℝ) → ℝ)
+    (V' : (Fin n → ℝ) → ((Fin n → ℝ) →L[ℝ] ℝ))
+    (hV : ∀ x, HasFDerivAt V (V' x) x) (hV' : Continuous V')
+    (lo hi L δ : Fin n → ℝ) (hL : ∀ i, 0 < L i) :
+    Integrable (fun z => ∑ i, V' (fun j => fieldProfile Real.tanh (1 / 2) 1 z (lo j) (hi j) (L j) (δ j))
+        (Pi.single i 1) * fieldGradient Real.cosh (1 / 2) z (lo i) (hi i) (L i) (δ i)) ∧
+    ∫ z, -(∑ i, V' (fun j => fieldProfile Real.tanh (1 / 2) 1 z (lo j) (hi j) (L j) (δ j))
+        (Pi.single i 1) * fieldGradient Real.cosh (1 / 2) z (lo i) (hi i) (L i) (δ i))
+      = V lo - V hi := by
+  set Φ : ℝ → Fin n → ℝ :=
+    fun z j => fieldProfile Real.tanh (1 / 2) 1 z (lo j) (hi j) (L j) (δ j) with hΦ
+  set Φ' : ℝ → Fin n → ℝ :=
+    fun z i => fieldGradient Real.cosh (1 / 2) z (lo i) (hi i) (L i) (δ i) with hΦ'
+  have hΦd : ∀ z, HasDerivAt Φ (Φ' z) z := fun z =>
+    hasDerivAt_pi.mpr fun i => hasDerivAt_fieldProfile (lo i) (hi i) (L i) (δ i) z
+  have hΦc : Continuous Φ := continuous_iff_continuousAt.mpr fun z => (hΦd z).continuousAt
+  have hVc : Continuous V := continuous_iff_continuousAt.mpr fun x => (hV x).continuousAt
+  have hK : IsCompact (Set.pi univ fun i => uIcc (lo i) (hi i)) :=
+    isCompact_univ_pi fun i => isCompact_uIcc
+  have hmem : ∀ z, Φ z ∈ Set.pi univ fun i => uIcc (lo i) (hi i) := fun z i _ =>
+    fieldProfile_mem_uIcc (lo i) (hi i) (L i) (δ i) z
+  have hterm : ∀ i, Integrable (fun z => V' (Φ z) (Pi.single i 1) * Φ' z i) := by
+    intro i
+    have hc : Continuous (fun x => V' x (Pi.single i 1)) := hV'.clm_apply continuous_const
+    obtain ⟨C, hC⟩ := hK.exists_bound_of_continuousOn hc.continuousOn
+    exact (integrable_fieldGradient (lo i) (hi i) (L i) (δ i)).bdd_mul (c := C)
+      (hc.comp hΦc).aestronglyMeasurable (Eventually.of_forall fun z => hC _ (hmem z))
+  have hint : Integrable (fun z => ∑ i, V' (Φ z) (Pi.single i 1) * Φ' z i) :=
+    integrable_finsetSum _ fun i _ => hterm i
+  refine ⟨hint, ?_⟩
+  have hderiv : ∀ z, HasDerivAt (fun z => -V (Φ z))
+      (-(∑ i, V' (Φ z) (Pi.single i 1) * Φ' z i)) z := fun z => by
+    have h := ((hV (Φ z)).comp_hasDerivAt z (hΦd z)).neg
+    rw [clm_apply_eq_sum] at h
+    exact h
+  have hbot : Tendsto (fun z => -V (Φ z)) atBot (𝓝 (-V lo)) :=
+    ((hVc.tendsto lo).comp (tendsto_pi_nhds.mpr fun i =>
+      tendsto_fieldProfile_atBot (lo i) (hi i) (δ i) (hL i))).neg
+  have htop : Tendsto (fun z => -V (Φ z)) atTop (𝓝 (-V hi)) :=
+    ((hVc.tendsto hi).comp (tendsto_pi_nhds.mpr fun i =>
+      tendsto_fieldProfile_atTop (lo i) (hi i) (δ i) (hL i))).neg
+  rw [integral_of_hasDerivAt_of_tendsto hderiv hint.neg hbot htop]
+  ring
+
+end Analysis
+
+/-! ## Symmetry plumbing (C08) -/
+
+theorem getD_map_range (F : ℕ → ℝ) {n j : ℕ} (hj : j < n) (d : ℝ) :
+    ((List.range n).map F).getD j d = F j := by
+  simp [List.getD_eq_getElem?_getD, hj]
+
+/-- re-index a list by `σ` (entry `i` of the result is entry `σ i` of the input) -/
+noncomputable def reindex (σ : ℕ → ℕ) (l : List ℝ) : List ℝ :=
+  (List.range l.length).map (fun i => l.getD (σ i) (1 / 2))
+
+theorem reindex_length (σ : ℕ → ℕ) (l : List ℝ) : (reindex σ l).length = l.length := by
+  simp [reindex]
+
+theorem reindex_getD (σ : ℕ → ℕ) (l : List ℝ) {i : ℕ} (hi : i < l.length) (d : ℝ) :
+    (reindex σ l).getD i d = l.getD (σ i) (1 / 2) :=
+  getD_map_range _ hi d
+
+theorem wallProfile_fst (z : ℝ) (lo hi w o : List ℝ) :
+    (wallProfile Real.tanh Real.cosh (1 / 2) 1 z lo hi w o).1 = (List.range lo.length).map
+      (fun i => fieldProfile Real.tanh (1 / 2) 1 z (lo.getD i (1 / 2)) (hi.getD i (1 / 2))
+        (w.getD i (1 / 2)) (o.getD i (1 / 2))) := rfl
+
+theorem wallProfile_snd (z : ℝ) (lo hi w o : List ℝ) :
+    (wallProfile Real.tanh Real.cosh (1 / 2) 1 z lo hi w o).2 = (List.range lo.length).map
+      (fun i => fieldGradient Real.cosh (1 / 2) z (lo.getD i (1 / 2)) (hi.getD i (1 / 2))
+        (w.getD i (1 / 2)) (o.getD i (1 / 2))) := rfl
+
+/-- `wallProfile` acts field by field, hence commutes with any re-indexing `σ` of the fields
+(`σ` maps `{0..n-1}` to itself; for a permutation this is "permuting the order of the fields"). -/
+theorem wallProfile_reindex (σ : ℕ → ℕ) (z : ℝ) (lo hi w o : List ℝ)
+    (hhi : hi.length = lo.length) (hw : w.length = lo.length) (ho : o.length = lo.length)
+    (hσ : ∀ i < lo.length, σ i < lo.length) :
+    wallProfile Real.tanh Real.cosh (1 / 2) 1 z (reindex σ lo) (reindex σ hi) (reindex σ w)
+        (reindex σ o)
+      = (reindex σ (wallProfile Real.tanh Real.cosh (1 / 2) 1 z lo hi w o).1,
+         reindex σ (wallProfile Real.tanh Real.cosh (1 / 2) 1 z lo hi w o).2) := by
+  refine Prod.ext ?_ ?_
+  · rw [wallProfile_fst]
+    simp only [reindex]
+    rw [wallProfile_fst]
+    simp only [List.length_map, List.length_range]
+    refine List.map_congr_left fun i hi' => ?_
+    have hi'' : i < lo.length := List.mem_range.mp hi'
+    rw [getD_map_range _ hi'', getD_map_range _ (hhi ▸ hi''), getD_map_range _ (hw ▸ hi''),
+      getD_map_range _ (ho ▸ hi''), getD_map_range _ (hσ i hi'')]
+  · rw [wallProfile_snd]
+    simp only [reindex]
+    rw [wallProfile_snd]
+    simp only [List.length_map, List.length_range]
+    refine List.map_congr_left fun i hi' => ?_
+    have hi'' : i < lo.length := List.mem_range.mp hi'
+    rw [getD_map_range _ hi'', getD_map_range _ (hhi ▸ hi''), getD_map_range _ (hw ▸ hi''),
+      getD_map_range _ (ho ▸ hi''), getD_map_range _ (hσ i hi'')]
+
+theorem zipWith_eq_map_zip {β : Type} (f : ℝ → ℝ → β) (l₁ l₂ : List ℝ) :
+    List.zipWith f l₁ l₂ = (List.zip l₁ l₂).map (fun p => f p.1 p.2) := by
+  induction l₁ generalizing l₂ with
+  | nil => simp
+  | cons a t ih => cases l₂ with
+    | nil => simp
+    | cons b t' => simp [ih]
+
+/-- the kinetic term as a sum over the zipped triples `(φ_high, φ_low, L)` -/
+theorem kinetic_eq (lo hi w : List ℝ) :
+    kinetic 0 6 lo hi w = ((List.zip hi (List.zip lo w)).map
+      (fun t => (t.1 - t.2.1) * (t.1 - t.2.1) / (6 * t.2.2))).sum := by
+  unfold kinetic
+  rw [sum_eq]
+  congr 1
+  induction hi generalizing lo w with
+  | nil => simp
+  | cons a t ih => cases lo with
+    | nil => simp
+    | cons b t' => cases w with
+      | nil => simp
+      | cons c t'' => simp [ih]
+
+theorem kinetic_perm {lo hi w lo' hi' w' : List ℝ}
+    (h : (List.zip hi (List.zip lo w)).Perm (List.zip hi' (List.zip lo' w'))) :
+    kinetic 0 6 lo hi w = kinetic 0 6 lo' hi' w' := by
+  rw [kinetic_eq, kinetic_eq]
+  exact (h.map _).sum_eq
+
+theorem updateGrid_perm {widths offsets widths' offsets' : List ℝ}
+    (h : (List.zip offsets widths).Perm (List.zip offsets' widths'))
+    (one two half log2 c105 vmid mfp : ℝ) (b : Bool) (smoothing ratio zero : ℝ) :
+    updateGrid Real.sqrt one two half log2 c105 widths offsets vmid mfp b smoothing ratio zero
+      = updateGrid Real.sqrt one two half log2 c105 widths' offsets' vmid mfp b smoothing ratio
+          zero := by
+  unfold updateGrid
+  have h1 : (List.zipWith (fun o w => (one - o) * w) offsets widths).Perm
+      (List.zipWith (fun o w => (one - o) * w) offsets' widths') := by
+    rw [zipWith_eq_map_zip, zipWith_eq_map_zip]; exact h.map _
+  have h2 : (List.zipWith (fun o w => (-one - o) * w) offsets widths).Perm
+      (List.zipWith (fun o w => (-one - o) * w) offsets' widths') := by
+    rw [zipWith_eq_map_zip, zipWith_eq_map_zip]; exact h.map _
+  simp only [maxL_perm h1 zero, minL_perm h2 zero]
+
+/-- `temperatureProfileEqLHS` sees `dPhidz` only through `Σ (φ_i')²`. -/
+theorem tempEqLHS_congr {d d' : List ℝ} (h : (d.map (fun x => x * x)).sum = (d'.map (fun x => x * x)).sum)
+    (veff w s1 s2 : ℝ) :
+    tempEqLHS Real.sqrt 0 (1 / 2) 4 d veff w s1 s2 = tempEqLHS Real.sqrt 0 (1 / 2) 4 d' veff w s1 s2 := by
+  rw [tempEqLHS_eq, tempEqLHS_eq, h]
+
+theorem sumsq_signflip {d d' : List ℝ} (h : List.Forall₂ (fun a b => b = a ∨ b = -a) d d') :
+    (d.map (fun x => x * x)).sum = (d'.map (fun x => x * x)).sum := by
+  induction h with
+  | nil => rfl
+  | cons hab _ ih =>
+    simp only [List.map_cons, List.sum_cons, ih]
+    rcases hab with rfl | rfl <;> ring
+
+/-- Cancellation-free form of the model's velocity: `v = 2 s1 / (w + √(4 s1² + w²))`. -/
+theorem plasmaVelocity_stable {w s1 : ℝ} (hw : 0 < w) (hs : s1 ≠ 0) :
+    plasmaVelocity Real.sqrt 2 4 w s1 = 2 * s1 / (w + disc w s1) := by
+  rw [plasmaVelocity_eq]
+  have h := disc_sq w s1
+  have hpos : 0 < w + disc w s1 := by linarith [disc_nonneg w s1]
+  rw [div_eq_div_iff (by simpa using hs) hpos.ne']
+  linear_combination h
+
+/-! ## Asymptotic states -/
+
+open Lemmas.Hydro Gen.R.Helpers in
+/-- A perfect-fluid state `(w, p)` moving with velocity `-v` (`0 < v < 1`) solves both equations of
+the profile solver for the constants `c1 = −energyFlux w v`, `c2 = momentumFlux w p v`, with
+vanishing field gradient, potential `−p` and no out-of-equilibrium part. -/
+theorem asymptotic_solves {w p v : ℝ} (hw : 0 < w) (hv0 : 0 < v) (hv1 : v < 1) :
+    plasmaVelocity Real.sqrt 2 4 w (-energyFlux w v) = -v ∧
+    tempEqLHS Real.sqrt 0 (1 / 2) 4 [] (-p) w (-energyFlux w v) (momentumFlux w p v) = 0 := by
+  have hv2 : v ^ 2 < 1 := by nlinarith
+  have hne : 1 - v ^ 2 ≠ 0 := by linarith
+  have hpos : 0 < 1 - v ^ 2 := by linarith
+  have hs : -energyFlux w v ≠ 0 := by
+    unfold energyFlux; rw [gammaSq_eq]
+    have : 0 < w * (1 / (1 - v ^ 2)) * v := by positivity
+    linarith
+  have hx : |(-v)| < 1 := by rw [abs_neg, abs_of_pos hv0]; exact hv1
+  have hT30 : w * (-v) / (1 - (-v) ^ 2) = -energyFlux w v := by
+    unfold energyFlux; rw [gammaSq_eq]; field_simp
+  have hvel := plasmaVelocity_unique hw hs hx hT30
+  refine ⟨hvel.symm, ?_⟩
+  have hk := kineticFlux_eq hw hs
+  rw [← hvel] at hk
+  rw [tempEqLHS_eq]
+  have : (1 / 2 : ℝ) * disc w (-energyFlux w v) - 1 / 2 * w = w * (-v) ^ 2 / (1 - (-v) ^ 2) := by
+    rw [hk]; ring
+  simp only [List.map_nil, List.sum_nil, momentumFlux]
+  rw [gammaSq_eq]
+  have e : w * (-v) ^ 2 / (1 - (-v) ^ 2) = w * (1 / (1 - v ^ 2)) * v ^ 2 := by
+    field_simp
+  linarith
+
+/-! ## Limits of the simple grid map `z = Lχ/√(1−χ²)` (generated `Grid.decompactify`) -/
+
+section GridLimits
+open Filter Topology Set Gen.R.Grid
+
+theorem tendsto_sqrt_one_sub_sq (c : ℝ) (hc : 1 - c ^ 2 = 0) (l : Filter ℝ) (hl : l ≤ 𝓝 c)
+    (hIoo : Ioo (-1 : ℝ) 1 ∈ l) :
+    Tendsto (fun χ : ℝ => Real.sqrt (1 - χ ^ 2)) l (𝓝[>] 0) := by
+  refine tendsto_nhdsWithin_iff.mpr ⟨?_, ?_⟩
+  · have h : Tendsto (fun χ : ℝ => Real.sqrt (1 - χ ^ 2)) (𝓝 c) (𝓝 (Real.sqrt (1 - c ^ 2))) :=
+      (Real.continuous_sqrt.comp (continuous_const.sub (continuous_pow 2))).tendsto c
+    rw [hc, Real.sqrt_zero] at h
+    exact h.mono_left hl
+  · filter_upwards [hIoo] with χ hχ
+    have : χ ^ 2 < 1 := by nlinarith [hχ.1, hχ.2]
+    exact Real.sqrt_pos.mpr (by linarith)
+
+/-- `Grid.decompactify` sends `χ → 1⁻` to `z → +∞` when `positionFalloff > 0`. -/
+theorem tendsto_gridz_right (s : GridP) (a b : ℝ) (hL : 0 < s.positionFalloff) :
+    Tendsto (fun χ => (decompactify s χ a b).1) (𝓝[<] (1 : ℝ)) atTop := by
+  have hnum : Tendsto (fun χ : ℝ => s.positionFalloff * χ) (𝓝[<] (1 : ℝ)) (𝓝 (s.positionFalloff * 1)) :=
+    tendsto_nhdsWithin_of_tendsto_nhds (tendsto_const_nhds.mul tendsto_id)
+  have hinv := (tendsto_sqrt_one_sub_sq 1 (by norm_num) (𝓝[<] (1 : ℝ)) nhdsWithin_le_nhds
+    (Ioo_mem_nhdsLT (by norm_num))).inv_tendsto_nhdsGT_zero
+  have h := hnum.pos_mul_atTop (by simpa using hL) hinv
+  refine h.congr fun χ => ?_
+  simp [decompactify, div_eq_mul_inv]
+
+/-- `Grid.decompactify` sends `χ → −1⁺` to `z → −∞` when `positionFalloff > 0`. -/
+theorem tendsto_gridz_left (s : GridP) (a b : ℝ) (hL : 0 < s.positionFalloff) :
+    Tendsto (fun χ => (decompactify s χ a b).1) (𝓝[>] (-1 : ℝ)) atBot := by
+  have hnum : Tendsto (fun χ : ℝ => s.positionFalloff * χ) (𝓝[>] (-1 : ℝ))
+      (𝓝 (s.positionFalloff * -1)) :=
+    tendsto_nhdsWithin_of_tendsto_nhds (tendsto_const_nhds.mul tendsto_id)
+  have hinv := (tendsto_sqrt_one_sub_sq (-1) (by norm_num) (𝓝[>] (-1 : ℝ)) nhdsWithin_le_nhds
+    (Ioo_mem_nhdsGT (by norm_num))).inv_tendsto_nhdsGT_zero
+  have h := hnum.neg_mul_atTop (by simpa using hL) hinv
+  refine h.congr fun χ => ?_
+  simp [decompactify, div_eq_mul_inv]
+
+end GridLimits
 
 end Lemmas.EOM
